@@ -162,6 +162,29 @@ theorem register_never_numeric_bracketed (regs : List String) (gz : Int × Int) 
   rw [accepts_indNum_ind] at hr
   cases hb : bracketOk e <;> cases hh : hasReg regs e <;> simp_all
 
+/-- what "contains a register name" means: some label anywhere in the expression — under unary minus
+    and the byte-extraction functions too — equals a declared register name up to letter case -/
+theorem hasReg_iff (regs : List String) (e : E) :
+    hasReg regs e = true ↔ ∃ n ∈ labelsOf e, ∃ r ∈ regs, r.toLower = n.toLower := by
+  unfold hasReg isRegName
+  simp only [List.any_eq_true, beq_iff_eq]
+
+theorem hasReg_neg (regs : List String) (e : E) : hasReg regs (.neg e) = hasReg regs e := rfl
+theorem hasReg_byteN (regs : List String) (k : Nat) (e : E) : hasReg regs (.byteN k e) = hasReg regs e := rfl
+theorem hasReg_bin (regs : List String) (o : BinOp) (l r : E) :
+    hasReg regs (.bin o l r) = (hasReg regs l || hasReg regs r) := by
+  simp [hasReg, labelsOf, List.any_append]
+
+/-- a register name written in any letter case, bare or under unary operators, is refused by every
+    numeric-style operand (so the statement is left to a later alternative or variant) -/
+theorem register_any_case_refused (regs : List String) (gz : Int × Int) (id : String) (code : Option CodeCfg)
+    (arg : ArgCfg) (va : Bool) (r n : String) (hr : r ∈ regs) (hn : r.toLower = n.toLower) :
+    accepts regs gz id (.numeric code arg va) (.plain (.label n)) = .decline ∧
+    accepts regs gz id (.numeric code arg va) (.plain (.neg (.label n))) = .decline ∧
+    accepts regs gz id (.numeric code arg va) (.plain (.byteN 0 (.label n))) = .decline := by
+  have h : hasReg regs (.label n) = true := (hasReg_iff regs _).mpr ⟨n, by simp [labelsOf], r, hr, hn⟩
+  refine ⟨?_, ?_, ?_⟩ <;> rw [accepts_numeric_plain] <;> simp [hasReg_neg, hasReg_byteN, h]
+
 /-- a plain register operand accepts exactly its own name, in any letter case -/
 theorem register_accepts_iff (regs : List String) (gz : Int × Int) (id r s : String) (code : Option CodeCfg) :
     (match accepts regs gz id (.register r code "" "") (.plain (.label s)) with | .ok _ => True | _ => False) ↔
